@@ -248,3 +248,18 @@ Definition run_rawbody (k : case_rawbody) : option bytes :=
   | OutText t => if beq t observed then None else Some t
   | OutJson _ => Some []
   end.
+
+(* suite plugin (Audit 2): the legacy plugin's call site on bodies that DO parse,
+   obfuscation enabled - the OutJson branch of [plugin_body] evaluated as a call
+   site (HARGeneratorPlugin.GenerateHAR -> extractBody), not only through its
+   callee [obfuscate_json].
+   (exclusions, body text, document, hash table, observed output) *)
+Definition case_plugin :=
+  (list bytes * bytes * json * list (bytes * bytes) * json)%type.
+
+Definition run_plugin (k : case_plugin) : option json :=
+  let '(excl, body, doc, tbl, observed) := k in
+  match plugin_body (lookup tbl) true excl body (Some doc) with
+  | OutJson out => if json_eqb out observed then None else Some out
+  | OutText _ => Some JNull
+  end.
